@@ -6,6 +6,9 @@ import glob
 checks = {}
 for p in sorted(glob.glob(os.path.join(R, "harness", "p*", "check.json"))):
     checks.update(json.load(open(p)))
+# only checks the coordinator has reviewed and accepted are claimed
+accepted = set(open(os.path.join(R, "accepted.txt")).read().split())
+checks = {k: v for k, v in checks.items() if k in accepted}
 props = [json.loads(l)["id"] for l in open(os.path.join(R, "properties.jsonl")) if l.strip()]
 na_path = os.path.join(R, "not_applicable.json")
 na_reasons = json.load(open(na_path)) if os.path.exists(na_path) else {}
